@@ -404,12 +404,7 @@ func c18(c *an.Ctx) {
 			o.Fail(p.Pos(fn.Pos()), "a required ($x: T!) variable with a default value is no longer rejected")
 		}
 		// the vars used for parsing the selection sets are the defaulted ones when defaults exist
-		for _, call := range an.Calls(fn, an.Mod(gq, "", "parseSelectionSet")) {
-			o.Site(call)
-			if a := an.CallOf(call).Args[2]; a == ssa.Value(vars) {
-				o.FailAt(call, "selection sets are parsed with the caller's variables, ignoring defaults")
-			}
-		}
+		ruleParseUsesDefaultedVars(c, o)
 	})
 
 	c.Check("R-WHO", "arguments are parsed once, by validation: Field.ParseArguments is only invoked from prepareQuery, guarded by the parsed flag; resolvers get selection.Args", 3, func(o *an.O) {
@@ -460,4 +455,23 @@ func c18(c *an.Ctx) {
 			}
 		}
 	})
+}
+
+// ruleParseUsesDefaultedVars (C18, C19): every selection set of a query - the operation's and
+// those of named fragment definitions - is parsed with the variables after defaults were
+// applied; argument values and directive conditions ($v in @skip(if: $v)) are bound there.
+func ruleParseUsesDefaultedVars(c *an.Ctx, o *an.O) {
+	fn := c.NeedFunc(gq, "Parse")
+	vars := fn.Params[1]
+	n := 0
+	for _, call := range an.Calls(fn, an.Mod(gq, "", "parseSelectionSet")) {
+		n++
+		o.Site(call)
+		if a := an.CallOf(call).Args[2]; a == ssa.Value(vars) {
+			o.FailAt(call, "selection sets are parsed with the caller's variables, ignoring defaults: a variable left to its default is unbound in arguments and in @skip/@include conditions written there (\"required argument in directive not provided: if\")")
+		}
+	}
+	if n == 0 {
+		o.Fail(c.P.Pos(fn.Pos()), "Parse no longer parses selection sets")
+	}
 }
